@@ -19,8 +19,11 @@ as functions of the step.  `RegimeOK r m b k` is the exact mathematical conditio
 (`(b/2m)² < k/m`, …); the rigid regimes integrate the equation with `k` (and `b`) dropped
 (`effK`, `effB`) — that is the documented meaning of a rigid-body mode.
 
-Not proved (see PARTIAL in the harness module): uniqueness of the solution, the eigen-decomposition
-and matrix-exponential paths, the floating-point switch errors of the cut-offs.
+Continued in `Props/C01Unique.lean` (uniqueness: "the" solution), `Props/C01Part.lean` (auto-detected
+partition, `_mk_slice`), `Props/C01Static.lean` (initial conditions, rf rows), `Props/C01Coupled.lean`,
+`Props/C01Delconj.lean` (complex-eigenvalue path, given the eigen-decomposition) and `Props/C01Exp.lean`
+(`SolveExp2`, given `E`, `P`, `Q`).  Not proved (see PARTIAL in the harness module): `scipy.linalg.eig`,
+`expm` themselves, the floating-point switch errors of the cut-offs.
 -/
 namespace PyYetiVerif.C01
 open PyYetiVerif.SuCoef
